@@ -80,7 +80,7 @@ func main() {
 	}
 	jf.Close()
 
-	var shards []string
+	shards := []string{}
 	for s := 0; s*shardSize < len(obs); s++ {
 		lo, hi := s*shardSize, (s+1)*shardSize
 		if hi > len(obs) {
@@ -122,6 +122,34 @@ func main() {
 		cf.Close()
 	}
 
+	// many connections at once
+	var mixed []*fr.MixedObs
+	if *replay == "" {
+		clients, per, rounds := 8, 8, 1
+		if *tier == "thorough" {
+			clients, per, rounds = 24, 40, 4
+		}
+		for r := 0; r < rounds; r++ {
+			mixed = append(mixed, fr.RunMixed(fmt.Sprintf("mixed-direct-%d", r), false, clients, per, *seed+uint64(r)))
+			mixed = append(mixed, fr.RunMixed(fmt.Sprintf("mixed-upstream-%d", r), true, clients, per, *seed+uint64(r)))
+		}
+		mf, _ := os.Create(filepath.Join(*out, "mixed.jsonl"))
+		e3 := json.NewEncoder(mf)
+		for i, mo := range mixed {
+			e3.Encode(mo)
+			body := "From G12 Require Import Check.\nOpen Scope N_scope.\n" +
+				"Definition cases : list mobs := [" + mo.Coq() + "].\n" +
+				"Definition M := Eval vm_compute in (bad mobs_model_ok cases).\nPrint M.\n" +
+				"Definition P := Eval vm_compute in (bad mobs_prop_ok cases).\nPrint P.\n"
+			name := fmt.Sprintf("mcases_%d.v", i)
+			if err := os.WriteFile(filepath.Join(*out, name), []byte(body), 0o644); err != nil {
+				fatal(err)
+			}
+			shards = append(shards, name)
+		}
+		mf.Close()
+	}
+
 	leaves := map[string]int{}
 	valsSeen := map[string]bool{}
 	nEx := 0
@@ -145,13 +173,20 @@ func main() {
 	}
 	ctCalls := 0
 	for _, c := range ct {
-		ctCalls += c.Closers
+		ctCalls += c.Closers * c.Conns
 	}
 	meta := map[string]any{
 		"shards": shards, "shard_size": shardSize, "cases": len(obs), "exchanges": nEx,
 		"distinct_valuations": len(valsSeen), "leaves": leaves, "leaf_names": strings.Join(leafNames, ","),
 		"conntrack_cases": len(ct), "conntrack_close_calls": ctCalls, "exchange_wall_s": exWall, "samples": samples,
+		"mixed_runs": len(mixed),
 	}
+	mreq, mconn := 0, 0
+	for _, mo := range mixed {
+		mreq += mo.Requests
+		mconn += mo.Conns
+	}
+	meta["mixed_requests"], meta["mixed_connections"] = mreq, mconn
 	mb, _ := json.MarshalIndent(meta, "", " ")
 	if err := os.WriteFile(filepath.Join(*out, "meta.json"), mb, 0o644); err != nil {
 		fatal(err)
